@@ -539,6 +539,7 @@ def run(tier):
     lints.length_is_boolean(chk, ['src/ec/'])
     from .. import lints as _l
     _l.limb_split_consistent(chk, ['src/ec/'])
+    _l.word_codec_maps(chk, ['src/ec/'], floor=3)
     from .. import siblings as _sib
     _sib.check(chk, ['src/ec/'], floor=8)
     from .. import siblings as _sib
